@@ -5,6 +5,8 @@ the only thing it takes from /verif/seeded is a one-line list of places other te
 import json, os, re, sys
 V = os.path.dirname(os.path.dirname(os.path.abspath(__file__)))
 prefix = sys.argv[1]; want = sys.argv[2:]
+EXTRA = os.environ.get("SEED_EXTRA", "")
+if EXTRA: EXTRA = EXTRA.strip() + "\n\n"
 props = [json.loads(l) for l in open(os.path.join(V, "properties.jsonl"))]
 def prior(pid):
     out = []
@@ -45,7 +47,7 @@ look fine alone. Prefer defects in code paths that are two or three calls away f
 survives from one operation to the next, or in a second/alternative route to the same behaviour (another constructor, another
 trait impl, a generic wrapper, a different feature-gated front end).
 
-Other testers have already submitted the following changes for this property. **Do not repeat them; choose different
+{extra}Other testers have already submitted the following changes for this property. **Do not repeat them; choose different
 functions and a different mechanism** (different file where possible):
 
 {prior}
@@ -78,5 +80,5 @@ for p in props:
     if want and p["id"] not in want: continue
     wt = f"/tmp/{prefix}-{p['id']}"
     open(f"/root/scratch/prompts/{prefix}-{p['id']}.md", "w").write(
-        T.format(wt=wt, prop=json.dumps(p, indent=1), prior=prior(p["id"]) or "(none)", pid=p["id"]))
+        T.format(extra=EXTRA, wt=wt, prop=json.dumps(p, indent=1), prior=prior(p["id"]) or "(none)", pid=p["id"]))
     print(wt)
